@@ -212,14 +212,27 @@ fn parse(text: &str, allow_substvar: bool) -> Parse {
 
                 self.builder.start_node(CONSTRAINT.into());
 
+                let mut constraint = String::new();
                 while self.current() == Some(L_ANGLE)
                     || self.current() == Some(R_ANGLE)
                     || self.current() == Some(EQUAL)
                 {
+                    if let Some((_, text)) = self.tokens.last() {
+                        constraint.push_str(text);
+                    }
                     self.bump();
                 }
 
                 self.builder.finish_node();
+
+                // Only the five relations of Policy 7.1 are understood; anything
+                // else ("<", ">", none at all, "==") is reported here rather than
+                // making Relation::version() panic later. (The tokens stay where
+                // they are: the text is reproduced as written.)
+                if !matches!(constraint.as_str(), ">=" | "<=" | "=" | ">>" | "<<") {
+                    self.errors
+                        .push(format!("Invalid version constraint: {:?}", constraint));
+                }
 
                 self.skip_ws();
 
